@@ -10,7 +10,7 @@ from . import absapi, core, gen, pipeline, tlc
 
 PKG = 'acme.call.v1'
 MODULE = 'acme.call_v1'
-FIELDS = ['name', 'count', 'flag', 'tags', 'labels', 'inner.name', 'inner.tags', 'kind', 'class', 'blob', 'vals', 'request_id', 'opt_request_id']
+FIELDS = ['name', 'count', 'flag', 'tags', 'labels', 'inner.name', 'inner.tags', 'kind', 'class', 'blob', 'vals', 'request_id', 'opt_request_id', 'extra']
 # concrete values for the abstract variants 1 and 2 (3 = explicitly empty string, ids only)
 VALUES = {
     'name': {1: 'things/a', 2: 'things/b'},
@@ -26,6 +26,7 @@ VALUES = {
     'vals': {1: [1.5], 2: ['s', True]},           # repeated google.protobuf.Value (dynamically typed elements)
     'request_id': {1: 'id-one', 2: 'id-two', 3: ''},
     'opt_request_id': {1: 'oid-one', 2: 'oid-two', 3: ''},
+    'extra': {1: {}, 2: {'name': 'x2'}},          # a singular message field: the EMPTY message is a value too (the field is present)
 }
 REPLY_VALUES = {'name': {1: 'r/a', 2: 'r/b'}, 'count': {1: 5}}
 UUID4 = re.compile(r'^[0-9a-f]{8}-[0-9a-f]{4}-4[0-9a-f]{3}-[89ab][0-9a-f]{3}-[0-9a-f]{12}$')
@@ -53,7 +54,7 @@ def carrier_api():
                   dict(name='inner', type='Inner'), dict(name='kind', type='enum:Kind'), dict(name='class'), dict(name='blob', type='bytes'),
                   dict(name='vals', type='google.protobuf.Value', repeated=True),
                   dict(name='request_id', uuid4=True), dict(name='opt_request_id', uuid4=True, optional=True),
-                  dict(name='req_id_required', uuid4=True, required=True), dict(name='plain_str')]
+                  dict(name='req_id_required', uuid4=True, required=True), dict(name='plain_str'), dict(name='extra', type='Inner')]
     dep = dict(name='other/dep/v1/dep.proto', package='other.dep.v1', target=False, imports=[],
                enums=[dict(name='DepKind', values=['KIND_UNSPECIFIED', 'ALPHA', 'BETA'])],
                messages=[dict(name='Dep', fields=[dict(name='name'), dict(name='count', type='int32')]),
@@ -71,7 +72,7 @@ def carrier_api():
         m('CheckDep', 'check', out='.other.dep.v1.Dep', sigs=['name,tags,kind,labels'], inp='.other.dep.v1.DepReq'),
         m('GetThing', 'get', sigs=['name,count']),
         m('DeleteThing', 'delete', out='google.protobuf.Empty', sigs=['name']),
-        m('UpdateThing', 'update', sigs=['inner.name,tags', 'labels,kind,class,flag,opt_request_id']),
+        m('UpdateThing', 'update', sigs=['inner.name,tags', 'labels,kind,class,flag,opt_request_id', 'extra']),
         m('CreateThing', 'create', sigs=['name,request_id']),
         # (an EMPTY method_signature - 'callable without flattened arguments' - stands before the others and ends nothing)
         m('TouchThing', 'touch', sigs=['', 'name,tags,count', 'name,count', 'vals']),
